@@ -114,6 +114,38 @@ class Ctx:
     def cover(self, name):
         self.covers.add(name)
 
+    def _decide(self, goal):
+        """validity of `goal` under the path condition: ('unsat'|'sat'|'unknown', model, dt, backend)"""
+        neg = z3.Not(goal)
+        r, m, dt = self.sat(neg, timeout=8000)
+        if r != z3.unknown:
+            return r, m, dt, "z3"
+        # unstable nonlinear queries: other seeds / the nlsat tactic / cvc5, before giving up
+        t0 = time.time()
+        for seed in (7, 31):
+            s = z3.Solver()
+            s.set("timeout", 8000)
+            s.set("seed", seed)
+            s.add(*self.pc)
+            s.add(neg)
+            r = s.check()
+            if r != z3.unknown:
+                return r, (s.model() if r == z3.sat else None), dt + time.time() - t0, "z3"
+        try:
+            tac = z3.TryFor(z3.Then("simplify", "solve-eqs", "qfnra-nlsat"), 15000)
+            g = z3.Goal()
+            g.add(*self.pc)
+            g.add(neg)
+            res = tac(g)
+            if len(res) == 1 and res[0].inconsistent():
+                return z3.unsat, None, dt + time.time() - t0, "z3-nlsat"
+        except z3.Z3Exception:
+            pass
+        r2 = _cvc5_retry(self.pc + [neg])
+        if r2 == "unsat":
+            return z3.unsat, None, dt + time.time() - t0, "cvc5"
+        return z3.unknown, None, dt + time.time() - t0, "z3"
+
     def prove(self, cond, label, detail=""):
         cond = unwrap(cond)
         path = tuple(self.taken)
@@ -122,24 +154,29 @@ class Ctx:
             return True
         if cond is False:
             cond = z3.BoolVal(False)
-        r, m, dt = self.sat(z3.Not(cond))
-        if r == z3.unsat:
-            self.obligations.append(Ob(label, "discharged", path=path, dt=dt))
-            ok = True
-        elif r == z3.sat:
-            self.obligations.append(Ob(label, "refuted", _model_dict(m), detail, path, dt, model_obj=m))
-            ok = False
+        # a conjunction is proved conjunct by conjunct (smaller, more stable queries)
+        parts = list(cond.children()) if z3.is_and(cond) else [cond]
+        status, model, tot, backend = "discharged", None, 0.0, "z3"
+        for part in parts:
+            r, m, dt, be = self._decide(part)
+            tot += dt
+            if be != "z3":
+                backend = be
+            if r == z3.sat:
+                status, model = "refuted", m
+                break
+            if r != z3.unsat:
+                status = "undecided"
+            self.pc.append(part)
+        if status == "discharged":
+            self.obligations.append(Ob(label, "discharged", path=path, dt=tot, backend=backend))
+        elif status == "refuted":
+            self.obligations.append(Ob(label, "refuted", _model_dict(model), detail, path, tot, model_obj=model))
         else:
-            r2 = _cvc5_retry(self.pc + [z3.Not(cond)])
-            if r2 == "unsat":
-                self.obligations.append(Ob(label, "discharged", path=path, dt=dt, backend="cvc5"))
-                ok = True
-            else:
-                self.obligations.append(Ob(label, "undecided", None, "solver: unknown", path, dt))
-                ok = False
+            self.obligations.append(Ob(label, "undecided", None, "solver: unknown", path, tot))
         # continue under the assumption that it holds (avoids cascades)
         self.pc.append(cond)
-        return ok
+        return status == "discharged"
 
 
 class ReplayCtx(Ctx):
@@ -729,6 +766,10 @@ class VC:
     def cover(self, name):
         Ctx.cur.cover(name)
 
+    def at_return(self, value, local_vars):
+        self.last_locals = dict(local_vars)
+        return value
+
     fresh_int = staticmethod(fresh_int)
     fresh_real = staticmethod(fresh_real)
     fresh_bool = staticmethod(fresh_bool)
@@ -772,8 +813,33 @@ class _StripImports(ast.NodeTransformer):
         return node
 
 
+class _GhostReturn(ast.NodeTransformer):
+    """`return X`  ->  `return __vc.at_return(X, locals())` (outermost function only)"""
+
+    def __init__(self):
+        self.depth = 0
+        self.n = 0
+
+    def visit_FunctionDef(self, node):
+        self.depth += 1
+        if self.depth == 1:
+            self.generic_visit(node)
+        self.depth -= 1
+        return node
+
+    def visit_Lambda(self, node):
+        return node
+
+    def visit_Return(self, node):
+        self.n += 1
+        val = node.value or ast.Constant(None)
+        call = ast.Call(func=ast.Attribute(value=ast.Name("__vc", ast.Load()), attr="at_return", ctx=ast.Load()),
+                        args=[val, ast.Call(func=ast.Name("locals", ast.Load()), args=[], keywords=[])], keywords=[])
+        return ast.Return(value=call)
+
+
 def extract(func, loops=None, rebind=None, vc=None, src_edit=None, strip_local_imports=True,
-            freevars=None):
+            freevars=None, ghost_return=False, ghost_entry=None):
     """Re-compile the real function from its current source.
 
     loops   : sidecar loop annotations (see LoopCutter)
@@ -807,6 +873,13 @@ def extract(func, loops=None, rebind=None, vc=None, src_edit=None, strip_local_i
     if src_edit:
         note = src_edit(fdef)
         transforms.append(f"ghost statements: {note}")
+    if ghost_return:
+        g = _GhostReturn()
+        g.visit(fdef)
+        transforms.append(f"ghost: {g.n} return statements pass locals() to the contract (__vc.at_return)")
+    if ghost_entry:
+        fdef.body = _P(ghost_entry) + fdef.body
+        transforms.append(f"ghost statement at entry: {ghost_entry.strip()}")
     ast.fix_missing_locations(tree)
     ns = dict(func.__globals__)
     ns["__vc"] = vc or VC()
